@@ -103,3 +103,36 @@ PROPS['C20'] = dict(level='exploration', jobs=single_jobs('endian', 4, 16),
                     'in thorough; 64-bit types (incl. double): byte-lane patterns, boundaries, NaN payloads and rapidcheck-generated words. Each value checks '
                     'From/To Little/Big and the four round trips against a memcpy/byte-reversal oracle. Non-trivial = byte image is not a palindrome.',
                     assumptions=['host endianness from __BYTE_ORDER__', 'built without UBSan: the shift-or idiom left-shifts into the sign bit (undefined before C++20, not a value error)'])
+
+
+def table_jobs(b, prop, tier, seed):
+    jobs = []
+    pools = [(1, 16)] if tier == 'quick' else [(1, 16), (seed + 100, 24)]
+    for ps, nv in pools:
+        bn = b.build_tables(ps, nv)
+        if not bn:
+            return None
+        n = 8
+        for i in range(n):
+            jobs.append(_job('tables:%d:%d' % (ps, nv), bn, ['--prop', prop, '--tier', tier, '--seed', str(seed), '--shard', '%d/%d' % (i, n)], 'tables_%d_%02d' % (ps, i)))
+    return jobs
+
+
+SETUP_EXTRA.append(lambda b: b.build_tables(1, 16))
+
+TGEN = ('Program generator verif/gen_tables.py: families of table definitions sharing one hash (NOP_TABLE_NS / NOP_TABLE_HASH / NOP_TABLE) obtained by a random walk '
+        'of evolution steps (add id, remove id, mark deleted, reorder, swap in a fungible type; ids never reused) over a pool of 7 entry ids with 1-3 fungible C++ '
+        'types each; every state of the walk is a version (16 versions quick; thorough adds a 24-version pool from VERIF_SEED); some versions are also nested in a '
+        'structure, a vector and another table\'s entry. ')
+PROPS['C07'] = dict(level='exploration', jobs=table_jobs,
+                    rule=TGEN + 'All ordered (writer, reader) pairs within a family x rapidcheck-generated assignments of empty/non-empty entry values (values drawn from the '
+                    'tightest fungible alternative so every alternative can hold them) x 5 readers, with trailing data on the stream and a destination pre-filled with unrelated '
+                    'entries. Oracle: model mapping by id. Non-trivial = reader lacks or has deleted an id the writer wrote AND knows an id the writer lacks, or the common ids '
+                    'appear in a different order, with at least one non-empty entry.',
+                    assumptions=['reference model of table evolution is docs/format.md "Table Container" plus nop/table.h rules 1-4'])
+PROPS['C08'] = dict(level='exploration', jobs=table_jobs,
+                    rule=TGEN + 'Valid encodings of generated table values receive one framing mutation (hash change, entry size shrunk / grown with or without padding, entries '
+                    'permuted, recognised active entry duplicated, skipped id duplicated, byte corrupted inside an entry value, entry count changed); differential against the '
+                    'reference decoder plus the named categories (InvalidTableHash, DuplicateTableEntry, rejection of undersized entries, acceptance and exact consumption of '
+                    'padded / permuted tables) and agreement of 4 readers. Non-trivial = the mutation hit an entry that is not the last one.',
+                    assumptions=['duplicates of deleted/unknown ids carry no accept/reject expectation (counted under excluded)'])
